@@ -81,6 +81,11 @@ type Plugin struct {
 	logger *zap.Logger
 	buf    []byte
 
+	// metric label values of the current event; the labels are the distinct
+	// key names (see keyMetricLabels), labelIdx[i] is the key that feeds label i
+	labelIdx  []int
+	labelVals []string
+
 	cardinalityUniqueValuesLimit *metric.Gauge
 	cardinalityUniqueValuesGauge *metric.GaugeVec
 }
@@ -220,10 +225,13 @@ func (p *Plugin) registerMetrics(ctl *metric.Ctl, prefix string) {
 	} else {
 		metricName = fmt.Sprintf(`cardinality_%s_unique_values_count`, prefix)
 	}
+	labels, labelIdx := keyMetricLabels(p.keys)
+	p.labelIdx = labelIdx
+	p.labelVals = make([]string, len(labelIdx))
 	p.cardinalityUniqueValuesGauge = ctl.RegisterGaugeVec(
 		metricName,
 		"Count of unique values",
-		keyMetricLabels(p.keys)...,
+		labels...,
 	)
 
 	if prefix == "" {
@@ -238,8 +246,11 @@ func (p *Plugin) registerMetrics(ctl *metric.Ctl, prefix string) {
 	p.cardinalityUniqueValuesLimit.Set(float64(p.config.Limit))
 }
 
-func keyMetricLabels(fields *parsedFields) []string {
+// keyMetricLabels returns the distinct key names and, for each of them,
+// the index of the first key field with that name.
+func keyMetricLabels(fields *parsedFields) ([]string, []int) {
 	result := make([]string, 0, len(fields.fields))
+	indexes := make([]int, 0, len(fields.fields))
 	seen := make(map[string]bool, len(fields.fields))
 
 	for i := range fields.fields {
@@ -247,9 +258,10 @@ func keyMetricLabels(fields *parsedFields) []string {
 		if !seen[name] {
 			seen[name] = true
 			result = append(result, name)
+			indexes = append(indexes, i)
 		}
 	}
-	return result
+	return result, indexes
 }
 
 func (p *Plugin) Stop() {
@@ -290,7 +302,10 @@ func (p *Plugin) Do(event *pipeline.Event) pipeline.ActionResult {
 	if !isOldValue {
 		// is new value
 		keysCount++
-		p.cardinalityUniqueValuesGauge.WithLabelValues(p.keys.valsBuf...).Set(float64(keysCount))
+		for i, keyIdx := range p.labelIdx {
+			p.labelVals[i] = p.keys.valsBuf[keyIdx]
+		}
+		p.cardinalityUniqueValuesGauge.WithLabelValues(p.labelVals...).Set(float64(keysCount))
 	}
 
 	return pipeline.ActionPass
